@@ -1,9 +1,12 @@
 mod bits;
 mod common;
+mod cprref;
 mod e1;
+mod enc;
 mod fields;
 mod proj;
 mod refdec;
+mod tools;
 
 use common::{silence_panics, Tier};
 
@@ -25,6 +28,8 @@ fn main() {
         "C09" => fields::generic(tier, "C09", &[9]),
         "C10" => fields::generic(tier, "C10", &[10]),
         "replay" => fields::replay(&args[2]),
+        "mkfeed" => tools::mkfeed(),
+        "feed2table" => tools::feed2table(&args[2..]),
         other => {
             eprintln!("unknown check {other}");
             2
